@@ -201,14 +201,23 @@ pub fn record_mmap(seed: u64, thorough: bool, path: &str) -> Value {
                     }
                 }
             }
+            // the environment may change while a map is alive: the file is shortened through another handle (the pages stay mapped; nobody
+            // touches them), or the process locks the mapped pages in memory - a drop still releases the whole mapping
+            let mut env = "plain";
+            if *size >= 8192 && cyc == 0 && fi % 2 == 0 {
+                if let Ok(f) = std::fs::OpenOptions::new().write(true).open(&fname) { if f.set_len(if fi % 4 == 0 { 0 } else { 4096 }).is_ok() { env = "file shortened while mapped"; } }
+            } else if *size >= 4096 && cyc == 0 {
+                if let Some((_, m)) = live.first() { let s: &[u64] = m.as_ref(); if unsafe { libc::mlock(s.as_ptr() as *const libc::c_void, s.len() * 8) } == 0 { env = "pages locked in memory"; } }
+            }
             while let Some((id, m)) = live.pop() {
                 // a map goes away at the end of a scope - or while a panic unwinds through its owner
                 let how = if (fi + cyc + id) % 3 == 0 { "unwind" } else { "scope" };
                 if how == "unwind" { let _ = std::panic::catch_unwind(std::panic::AssertUnwindSafe(move || { let _owner = m; panic!("unwinding through the owner of a map") })); }
                 else { drop(m); }
-                out.push(json!({"e": "m_drop", "id": id, "how": how, "mapped": mapped_bytes(&fname)}));
+                out.push(json!({"e": "m_drop", "id": id, "how": how, "env": env, "mapped": mapped_bytes(&fname)}));
                 events += 1;
             }
+            if env == "file shortened while mapped" { std::fs::write(&fname, &content).unwrap(); written = None; }
             if let Some((idx, val)) = written {
                 let now = std::fs::read(&fname).unwrap();
                 let ok = now.len() == *size && now[8 * idx..8 * idx + 8] == val.to_le_bytes();
